@@ -223,8 +223,10 @@ theorem commit_sync (c : Lru) (h : Nat) (hA : Acct c) (hnp : c.poisoned = false)
   | some p =>
     simp only
     have hfree := reservedSum_filter_find c.temps h p hf
-    rcases hr : makeSpace { c with temps := c.temps.filter (·.handle != h) } (p.written - p.reserved) with ⟨c1, r⟩
     have hs0 : Sync { c with temps := c.temps.filter (·.handle != h) } := sync_frame _ _ hs rfl rfl
+    split
+    · exact hs0
+    rcases hr : makeSpace { c with temps := c.temps.filter (·.handle != h) } (p.written - p.reserved) with ⟨c1, r⟩
     have hs1 := (makeSpace_sync _ c1 _ r hr hs0).1
     obtain ⟨h1, h2, h3, h4, h5, hpo, h6, h8⟩ := makeSpace_spec _ c1 _ r hr
     simp only at h1 h2 h3 hpo
